@@ -21,6 +21,21 @@ struct after { int clock; uint64_t deadline; _Atomic int runs; };
 struct tmr { dispatch_source_t ds; int clock; uint64_t start, interval; _Atomic long total; _Atomic int fires; _Atomic int cancelled; int replaced; uint64_t new_start; };
 int main(int argc,char**argv){ uint64_t seed=argc>1?strtoull(argv[1],0,0):1; int na=argc>2?atoi(argv[2]):200, nt=argc>3?atoi(argv[3]):40; rs=seed;
   dispatch_queue_t q=dispatch_queue_create("c11", DISPATCH_QUEUE_CONCURRENT);
+  // very first as well: a repeating timer whose handler overruns its interval and then replaces the settings by ones on ANOTHER clock whose
+  // start is already due ("follows only the new settings"): the pending configuration is applied by the manager thread while the
+  // timer cannot come back to it, the new heap's minimum is due at once - the timer must go on firing on its new clock
+  { dispatch_queue_t sq=dispatch_queue_create("c11.reclock",NULL);
+    for(int from=0; from<3 && !viol; from++) for(int to=0; to<3 && !viol; to++){ if(from==to) continue;
+      dispatch_time_t b0 = from==0? DISPATCH_TIME_NOW : from==1? (1ull<<63) : DISPATCH_WALLTIME_NOW, b1 = to==0? DISPATCH_TIME_NOW : to==1? (1ull<<63) : DISPATCH_WALLTIME_NOW;
+      __block _Atomic int calls=0, after=0; __block dispatch_source_t t=dispatch_source_create(DISPATCH_SOURCE_TYPE_TIMER,0,0,sq);
+      dispatch_source_set_event_handler(t,^{ int c=atomic_fetch_add(&calls,1); if(atomic_load(&after)) atomic_fetch_add(&after,1);
+          if(c==0){ dispatch_source_set_timer(t,dispatch_time(b1,0),4000000ull,0); atomic_store(&after,1); usleep(12000); } });   // the handler goes on for three more intervals: the old timer expires meanwhile
+      dispatch_source_set_timer(t,dispatch_time(b0,3000000ll),4000000ull,0); dispatch_activate(t);
+      for(int w=0; w<300 && atomic_load(&after)<4; w++) usleep(1000);
+      if(!atomic_load(&after)) fail("a repeating timer never fired at all (300 ms, 3 ms start): clock",from,0,0);
+      else if(atomic_load(&after)<4) fail("a repeating timer whose settings were replaced from its own handler by ones on another clock (start already due, 4 ms interval) stopped firing: fired after the replacement within 300 ms / from clock / to clock",atomic_load(&after)-1,from,to);
+      dispatch_source_cancel(t); dispatch_sync(sq,^{}); dispatch_release(t); usleep(3000); }
+    dispatch_release(sq); }
   // very first, while nothing else wakes the manager thread (any wake-up services the heaps of all clocks and would hide a dead kernel timer):
   // a lone pending timer is cancelled (or parked at FOREVER) before it fires: the clock's heap empties and the kernel timer is
   // disarmed; timers armed on that clock afterwards must still fire
